@@ -23,8 +23,8 @@ ASSUMPTIONS = [
     "spans of member groups are computed with the real connect_locations (the subject of C04)",
     "the documented de-duplication (same coordinates -> one candidate; a group arriving at the coordinates of an existing stronger "
     "candidate is merged into it and the extra members also get singles) is part of the reference",
-    "kinds are only compared where the reference is unambiguous (no protocluster inside the core span of two different hybrid groups; no two "
-    "groups of the same kind arriving at identical coordinates)",
+    "kinds are only compared where the reference is unambiguous (no protocluster inside the core span of two different hybrid groups; no weaker "
+    "group arriving at coordinates already held by two candidates); two groups of one kind at identical coordinates are two candidates",
 ]
 BOUNDS = {
     "quick": "6 slots, line and ring, multisets of <= 3 from a 36-43 shape menu, all <= 6 supply orders; 4-sets with >= 3 equal core starts/ends (symmetric neighbourhoods, cores of <= 2 slots, 2 orders)",
@@ -59,24 +59,30 @@ def reference(n, info, span_key, span_bases):
         span_key(members) -> (start, end) of the span of the members' extents (dedup key)
         span_bases(members, which) -> bases of the span of cores / extents
         -> (set of (kind, frozenset(members)), ambiguous flag) """
-    cands = {}
+    cands = []          # [key, kind, members]
     singles_extra = set()
     ambiguous = False
     same_kind_collision = []
 
     def add(kind, members):
+        nonlocal ambiguous
         key = span_key(members)
-        if key not in cands:
-            cands[key] = (kind, frozenset(members))
+        entries = [e for e in cands if e[0] == key]
+        if not entries:
+            cands.append([key, kind, frozenset(members)])
             return
-        ekind, emembers = cands[key]
-        extras = set(members) - emembers
+        if all(e[1] == kind for e in entries):
+            # two groups of the same pass at identical coordinates: they are disjoint, and the statement allows candidates with the
+            # same coordinates and different membership, so both exist
+            same_kind_collision.append(key)
+            cands.append([key, kind, frozenset(members)])
+            return
+        extras = set(members) - set().union(*[e[2] for e in entries])
         if not extras:
             return
-        if ekind == kind:
-            # two groups of the same kind at identical coordinates: which of them counts as 'existing' is not documented
-            same_kind_collision.append(key)
-        cands[key] = (ekind, emembers | extras)
+        if len(entries) > 1:
+            ambiguous = True      # which of the candidates at these coordinates the weaker group is promoted into is not documented
+        entries[0][2] = entries[0][2] | extras
         singles_extra.update(extras)
 
     protos = list(range(n))
@@ -96,7 +102,7 @@ def reference(n, info, span_key, span_bases):
         add("chemical_hybrid", group)
 
     def items_now():
-        return [("c", members) for _, members in cands.values()] + [("p", frozenset([p])) for p in sorted(unassigned)]
+        return [("c", members) for _, _, members in cands] + [("p", frozenset([p])) for p in sorted(unassigned)]
 
     items = items_now()
     inter = [g for g in components(items, lambda a, b: bool(span_bases(sorted(a[1]), "core") & span_bases(sorted(b[1]), "core")))
@@ -112,13 +118,13 @@ def reference(n, info, span_key, span_bases):
              if len(g) > 1]
     for group in neigh:
         add("neighbouring", frozenset().union(*[m for _, m in group]))
-    out = set(cands.values())
+    out = {(kind, members) for _, kind, members in cands}
     for p in set(unassigned) | singles_extra:
         key = span_key([p])
-        if key in cands and p in cands[key][1]:
+        if any(e[0] == key and p in e[2] for e in cands):
             continue
         out.add(("single", frozenset([p])))
-    return out, ambiguous or bool(same_kind_collision), bool(singles_extra)
+    return out, ambiguous, bool(singles_extra), bool(same_kind_collision)
 
 
 class DuplicateMember(Exception):
@@ -140,7 +146,7 @@ def run_config(nslots, circular, specs, order, bridging_gene=False):
         if len(members) != len(set(members)):
             raise DuplicateMember(f"{cand.kind} candidate at {cand.location} lists protoclusters {members}")
         raw.append((str(cand.kind), frozenset(members), str(cand.location),
-                    (int(cand.location.start), int(cand.location.end))))
+                    (int(cand.location.start), int(cand.location.end)), tuple(members)))
     return rec, protos, raw
 
 
@@ -160,13 +166,13 @@ def check_config(nslots, circular, specs, orders=None, stats=None, bridging_gene
         except Exception as err:  # pylint: disable=broad-except
             fails.append(("formation-raised", f"order={list(order)} {type(err).__name__}: {str(err)[:150]}"))
             return fails
-        got = {(k, m) for k, m, _, _ in raw}
+        got = {(k, m) for k, m, _, _, _ in raw}
         # ---- layer 1
-        covered = set().union(*[m for _, m, _, _ in raw]) if raw else set()
+        covered = set().union(*[m for _, m, _, _, _ in raw]) if raw else set()
         if covered != set(range(n)):
             fails.append(("protocluster-in-no-candidate", f"order={list(order)} missing={sorted(set(range(n)) - covered)}"))
         seen = set()
-        for kind, members, loc_text, key in raw:
+        for kind, members, loc_text, key, _ in raw:
             ident = (key, members, loc_text)
             if ident in seen:
                 fails.append(("duplicate-candidate", f"{kind} {sorted(members)} {loc_text}"))
@@ -180,9 +186,16 @@ def check_config(nslots, circular, specs, orders=None, stats=None, bridging_gene
             if not union <= cand_bases or cand_bases != R.bases(want):
                 fails.append(("candidate-span", f"{kind} {sorted(members)} at {loc_text}, members span {want}"))
         if len(raw) != len(got):
-            fails.append(("duplicate-kind-membership", f"{sorted((k, sorted(m)) for k, m, _, _ in raw)}"))
+            fails.append(("duplicate-kind-membership", f"{sorted((k, sorted(m)) for k, m, _, _, _ in raw)}"))
+        # candidates in number order, members as listed - by content, as protoclusters equal in extent, core and product are
+        # interchangeable
+        content = {i: (str(p.location), str(p.core_location), p.product, p.tool) for i, p in enumerate(protos)}
+        sequence = [(k, [content[i] for i in listed]) for k, _, _, _, listed in raw]
         if first is None:
-            first = (order, got, protos)
+            first = (order, got, protos, sequence)
+        elif got == first[1] and sequence != first[3]:
+            # the same candidates, numbered differently
+            fails.append(("candidate-numbering-depends-on-supply-order", f"order {list(first[0])} -> {first[3]}; order {list(order)} -> {sequence}"))
         elif got != first[1]:
             fails.append(("order-dependence", f"order {list(first[0])} -> {_fmt(first[1])}; order {list(order)} -> {_fmt(got)}"))
             if stats is not None:
@@ -192,7 +205,7 @@ def check_config(nslots, circular, specs, orders=None, stats=None, bridging_gene
     if stats is not None and len(orders) > 1:
         stats["orders-compared"] += len(orders) - 1
     # ---- layer 2 (on the first order's objects)
-    _, got, protos = first
+    _, got, protos, _ = first
     info = {i: {"core": R.bases(p.core_location), "ext": R.bases(p.location),
                 "defs": {g.get_name() for g in p.definition_cdses}} for i, p in enumerate(protos)}
 
@@ -204,7 +217,7 @@ def check_config(nslots, circular, specs, orders=None, stats=None, bridging_gene
     def span_bases(members, which):
         locs = [protos[m].core_location if which == "core" else protos[m].location for m in members]
         return R.bases(connect_locations(locs, wrap_point=wrap))
-    exp, ambiguous, promoted = reference(n, info, span_key, span_bases)
+    exp, ambiguous, promoted, same_kind = reference(n, info, span_key, span_bases)
     if stats is not None:
         for kind, _ in got:
             stats[f"kind:{kind}"] += 1
@@ -216,10 +229,15 @@ def check_config(nslots, circular, specs, orders=None, stats=None, bridging_gene
             stats["dedup-promoted"] += 1
         if ambiguous:
             stats["ambiguous-skipped"] += 1
+        if same_kind:
+            stats["same-kind-groups-at-equal-coordinates"] += 1
     if not ambiguous and got != exp:
         extra = got - exp
         missing = exp - got
         clause = "kinds:" + "+".join(sorted({f"extra-{k}" for k, _ in extra} | {f"missing-{k}" for k, _ in missing}))
+        if same_kind:
+            # groups of one pass that arrive at identical coordinates (extents clipped to the same place)
+            clause = "same-kind-groups-at-equal-coordinates-merged"
         fails.append((clause, f"code={_fmt(got)} ref={_fmt(exp)}"))
     return fails
 
@@ -248,6 +266,10 @@ def shards(tier):
             out.append([8, circ, "hybrids5", chunk, tier])
             out.append([8, circ, "hybrids7", chunk, tier])
             out.append([8, circ, "hybrids6", chunk, tier])
+            out.append([6, circ, "clipped5", chunk, tier])
+            out.append([6, circ, "strandmix", chunk, tier])
+            if circ:
+                out.append([6, circ, "crosscores", chunk, tier])
     plans = [(6, False, 3), (6, True, 3)]
     if tier == "thorough":
         plans += [(6, False, 4), (6, True, 4), (7, True, 3)]
@@ -317,6 +339,61 @@ def two_hybrids_plus_one(nslots, circ):
                     yield pair1 + pair2 + [x]
 
 
+CLIP = 99     # neighbourhood (in slots) larger than any record: the extent is the whole record
+
+
+def clipped_hybrids_plus_one(nslots, circ):
+    """five protoclusters on a short record: two chemical hybrid pairs of which at least one has its extents clipped to the whole
+    record (the norm on small contigs and plasmids), plus one further protocluster, clipped or not - groups of one kind then
+    arrive at identical coordinates"""
+    L = nslots * P.SLOT
+    extra = [m for m in P.protocluster_menu(nslots, circ, max_core=1, neighbourhoods=((0, 0), (CLIP, CLIP)))
+             if P.make_protocluster(L, circ, m) is not None]
+    evens = [s for s in range(0, nslots - 1, 2)]
+    for s1, s2 in itertools.combinations(evens, 2):
+        for n1, n2 in ((CLIP, CLIP), (CLIP, 1), (1, CLIP), (CLIP, 0)):
+            pair1 = [[s1, s1, n1, n1, "p"], [s1, s1 + 1, n1, n1, "q"]]
+            pair2 = [[s2, s2, n2, n2, "p"], [s2, s2 + 1, n2, n2, "q"]]
+            if any(P.make_protocluster(L, circ, m) is None for m in pair1 + pair2):
+                continue
+            yield pair1 + pair2
+            for x in extra:
+                if x not in pair1 and x not in pair2:
+                    yield pair1 + pair2 + [x]
+
+
+def strand_mix(nslots, circ):
+    """two or three protoclusters of which some are sideloaded (locations without a strand): identical coordinates with different
+    strands, which an ordering that compares whole locations cannot tell apart from different coordinates"""
+    menu = []
+    for slot in (1, 2, 3):
+        for nbh in ((0, 0), (1, 1)):
+            for flags in ("", "s"):
+                for product in ("p", "q"):
+                    menu.append([slot, slot, nbh[0], nbh[1], product, flags])
+    for size in (2, 3):
+        for combo in itertools.combinations(menu, size):
+            if any(x[5] == "s" for x in combo):
+                yield list(combo)
+
+
+def crossing_cores(nslots, circ):
+    """two or three protoclusters whose cores all cross the origin, with every combination of small neighbourhoods: equal extents
+    with different cores, where the plain start/end of a core location (0 and the record length) say nothing"""
+    if not circ:
+        return
+    L = nslots * P.SLOT
+    menu = [[cs, ce, nl, nr, "p"] for cs, ce in ((nslots - 1, 0), (nslots - 1, 1), (nslots - 2, 0), (nslots - 2, 1))
+            for nl in (0, 1, 2) for nr in (0, 1, 2)]
+    menu = [m for m in menu if P.make_protocluster(L, circ, m) is not None]
+    for size in (2, 3):
+        for combo in itertools.combinations(menu, size):
+            yield list(combo)
+
+
+SMALL_FAMILIES = {"strandmix": strand_mix, "crosscores": crossing_cores}
+
+
 def three_hybrids_plus_one(nslots, circ):
     """seven protoclusters: three chemical hybrid pairs with neighbourhoods of different size (so that one candidate can lie
     inside the extent of another and candidates sorting later can end earlier) plus a single protocluster anywhere"""
@@ -372,6 +449,35 @@ def run_two_hybrids(shard):
                     res.fail(case, clause, detail)
                 res.sample(case)
         return res
+    if kind in SMALL_FAMILIES:
+        for index, specs in enumerate(SMALL_FAMILIES[kind](nslots, circ)):
+            if index % N_CHUNKS != chunk:
+                continue
+            res.evals += 1
+            res.nontrivial += 1
+            fails = check_config(nslots, circ, specs, stats=res.buckets)      # every supply order
+            res.outcomes[(kind, tuple(sorted(c.split(":")[0] for c, _ in fails)))] += 1
+            if fails or res.evals % 1009 == 1:
+                case = {"nslots": nslots, "circ": circ, "specs": specs}
+                for clause, detail in fails:
+                    res.fail(case, clause, detail)
+                res.sample(case)
+        return res
+    if kind == "clipped5":
+        for index, specs in enumerate(clipped_hybrids_plus_one(nslots, circ)):
+            if index % N_CHUNKS != chunk:
+                continue
+            res.evals += 1
+            res.nontrivial += 1
+            n = len(specs)
+            fails = check_config(nslots, circ, specs, orders=[tuple(range(n)), tuple(range(n - 1, -1, -1))], stats=res.buckets)
+            res.outcomes[("clipped5", tuple(sorted(c.split(":")[0] for c, _ in fails)))] += 1
+            if fails or res.evals % 1009 == 1:
+                case = {"nslots": nslots, "circ": circ, "specs": specs}
+                for clause, detail in fails:
+                    res.fail(case, clause, detail)
+                res.sample(case)
+        return res
     if kind == "hybrids7":
         for index, specs in enumerate(three_hybrids_plus_one(nslots, circ)):
             if index % N_CHUNKS != chunk:
@@ -404,7 +510,7 @@ def run_two_hybrids(shard):
 def run_shard(shard):
     if shard[2] == "coincide4":
         return run_coincide4(shard)
-    if shard[2] in ("hybrids5", "hybrids6", "hybrids7"):
+    if shard[2] in ("hybrids5", "hybrids6", "hybrids7", "clipped5") or shard[2] in SMALL_FAMILIES:
         return run_two_hybrids(shard)
     nslots, circ, size, chunk, tier = shard
     res = Result()
